@@ -138,6 +138,9 @@ func Variants(msaIn io.Reader, stdin bool, refID string, annoIn io.Reader, annoS
 			encodedrefseq := make([]byte, len(gb.ORIGIN))
 			for i := range gb.ORIGIN {
 				encodedrefseq[i] = EA[gb.ORIGIN[i]]
+				if encodedrefseq[i] == 0 {
+					return fmt.Errorf("invalid nucleotide in genbank ORIGIN (%s)", string(gb.ORIGIN[i]))
+				}
 			}
 			ref = fastaio.EncodedFastaRecord{ID: "annotation_fasta", Seq: encodedrefseq}
 			os.Stderr.WriteString("using --annotation fasta as reference\n")
